@@ -52,6 +52,7 @@ Fixpoint c18_setters (fuel : nat) (ops : list Z) (k : jwk) : list Z :=
           | Some k' => (1 :: c18_describe k') ++ c18_setters fuel' r k'
           | None => (0 :: c18_describe k) ++ c18_setters fuel' r k
           end
+        else if t =? 3 then let k' := jwk_params_mut_assign k (mk a b) in (1 :: c18_describe k') ++ c18_setters fuel' r k'
         else let k' := jwk_from_params (mk a b) in (1 :: c18_describe k') ++ c18_setters fuel' r k'
     | _ => []
     end
